@@ -112,6 +112,7 @@ U == << Nil,
         TG(12, << <<S("a", 1), I(1)>>, <<S("b", 1), I(2)>> >>),
         TG(12, << <<I(0), R("0.5")>>, <<I(1), S("ab", 2)>>, <<I(2), Nil>> >>),
         TG(20, << <<T1, Nil>> >>),
+        T(<< <<R("1.0"), I(5)>>, <<I(1), I(6)>>, <<R("2.5"), I(7)>> >>),     \* whole-number real keys are not integer keys
         F("f"), F("g") >>
 NU == Len(U)
 
